@@ -304,7 +304,9 @@ static void hook (void) {
     char key[120]; snprintf (key, sizeof key, "C04:value-stack-beyond-StackSize");
     note (key, "sp is %ld slots past the configured StackSize %ld after %s", (long) (sp - (start_of_stack + K)) + 1, K, opname (last_op));
   }
-  if (sp >= start_of_stack && sp < start_of_stack + K) {
+  /* only a value of the running function (argument, local, temporary): what an efun has parked below the frame of its callback
+   * (filter()'s per-element flag buffer is a T_STRING of array size + 1 bytes) is scratch space, not an LPC value */
+  if (sp >= start_of_stack && sp < start_of_stack + K && sp >= fp) {
     char where[80]; snprintf (where, sizeof where, "on-the-stack-after-%s", opname (last_op));
     /* only the value itself, not what it contains: containers are walked at the end of the evaluation */
     svalue_t *v = sp;
